@@ -143,6 +143,21 @@ CaseResult run_case(Tape &t, long sweep)
     size_t n = t.weighted({ 1, 8, 2 }) == 0 ? 0 : (size_t) t.range(1, 6);
     if (t.chance(1, 20)) n = (size_t) t.range(10, 40);
     for (size_t i = 0; i < n; i++) in.argv.push_back(gen_arg(t));
+    // long command lines around the 32767-unit limit of CreateProcessW: more than that many UTF-8 bytes, fewer UTF-16 units
+    if (t.chance(1, 40)) {
+      static const char *mb[] = { "\xC3\xA9", "\xE6\x97\xA5", "\xF0\x9F\x98\x80", "a" };
+      size_t which = t.pick(4);
+      size_t units_per = which == 2 ? 2 : 1;
+      size_t budget = (size_t) t.range(9000, 30000) / units_per;  // UTF-16 units in total
+      size_t parts = (size_t) t.range(1, 3);
+      for (size_t k = 0; k < parts; k++) {
+        std::string a;
+        for (size_t i = 0; i < budget / parts; i++) a += mb[which];
+        if (t.coin()) a += " x\"";
+        in.argv.push_back(a);
+      }
+      kind = "random-long";
+    }
     gen_env(t, in);
     if (t.chance(1, 12)) in.fail_alloc = (int) t.pick(8);
   }
@@ -156,7 +171,7 @@ CaseResult run_case(Tape &t, long sweep)
     h = mix(h, fnv(in.argv[i]));
   }
   h = mix(h, in.argv.size());
-  if (kind == "random") {
+  if (kind == "random" || kind == "random-long") {
     for (auto &e : in.extra) h = mix(h, fnv(e));
     h = mix(h, (uint64_t) in.extend * 2 + in.extra_null);
   }
